@@ -128,11 +128,11 @@ open SV.Model.C01Regex SV.Spec.C01Regex SV.Proofs.C01Regex
     pattern matches the old one **and** has a length within `[minLength, maxLength]`: the generator cannot leave the
     documented language. Covers the single-repeat shape and the multi-part distribution algorithm (exact-length
     search and range distribution), for every atom interpretation `sat`. -/
-theorem C01_pattern_merge_sound {α : Type} (sat : α → Char → Bool) (v : SV.Model.C01Regex.Variant)
+theorem C01_pattern_merge_sound {α : Type} (sat : α → Char → Bool) (v : RxV)
     (first last : Item α) (middle : List (Item α)) (lo hi : Option Nat) (out : List (Item α))
     (hb : isBegin first = true) (he : isEnd last = true) (hs : simpleMiddle middle = true)
     (hwf : wfBounds (repBounds middle)) (hbare : ∀ a, middle ≠ [.lit a])
-    (hv : v = .repaired ∨ ∀ h, hi = some h → h ≠ countLits middle) (hhi : ∀ h, hi = some h → h < MAXREPEAT)
+    (hv : v.zeroMax = .repaired ∨ ∀ h, hi = some h → h ≠ countLits middle) (hhi : ∀ h, hi = some h → h < MAXREPEAT)
     (hq : updateQuantifier v (first :: middle ++ [last]) lo hi = .ok out true) :
     ∃ middle', out = first :: middle' ++ [last] ∧
       ∀ s, SearchAnchored sat middle' s →
@@ -142,16 +142,16 @@ theorem C01_pattern_merge_sound {α : Type} (sat : α → Char → Bool) (v : SV
 /-- non-vacuity of `C01_pattern_merge_sound`: `^[a-z]+$` with `maxLength 3` is re-rendered as `^([a-z]){1,3}$`, and
     `^a[0-9]{1,4}-[a-z]*$` with `minLength = maxLength = 5` gets the distribution `{1}` / `{2}` -/
 example :
-    updateQuantifier .asFound [.at .bos, .rep 1 MAXREPEAT (.atom 0), .at .eos] none (some 3)
+    updateQuantifier {} [.at .bos, .rep 1 MAXREPEAT (.atom 0), .at .eos] none (some 3)
       = .ok [.at .bos, .rep 1 3 (.atom 0), .at .eos] true ∧
-    updateQuantifier .asFound [.at .bos, .lit 1, .rep 1 4 (.atom 3), .lit 9, .rep 0 MAXREPEAT (.atom 0), .at .eos] (some 5) (some 5)
+    updateQuantifier {} [.at .bos, .lit 1, .rep 1 4 (.atom 3), .lit 9, .rep 0 MAXREPEAT (.atom 0), .at .eos] (some 5) (some 5)
       = .ok [.at .bos, .lit 1, .rep 1 1 (.atom 3), .lit 9, .rep 2 2 (.atom 0), .at .eos] true := by
   decide
 
 /-- **C01_pattern_merge_full_false (F5)**: without anchors the merge is unsound — `[a-z]` + `maxLength 3` becomes
     `([a-z]){1,3}`, which "aaaaaaa" matches under search semantics although it is 7 characters long. -/
 theorem C01_pattern_merge_unanchored_full_false :
-    updateQuantifier .asFound [(.cls 0 : Item Nat)] none (some 3) = .ok [.rep 1 3 (.atom 0)] true ∧
+    updateQuantifier {} [(.cls 0 : Item Nat)] none (some 3) = .ok [.rep 1 3 (.atom 0)] true ∧
     SearchFree satW [(.rep 1 3 (.atom 0) : Item Nat)] "aaaaaaa".toList ∧ ¬ ("aaaaaaa".toList.length ≤ 3) := by
   refine ⟨by decide, ⟨"aaaa".toList, "aaa".toList, [], by decide, ?_⟩, by decide⟩
   exact .cat (.rep [['a'], ['a'], ['a']] (fun w hw => by
@@ -161,7 +161,7 @@ theorem C01_pattern_merge_unanchored_full_false :
 /-- **(F28)**: a repeat of a two-character group — `^(ab)+$` + `maxLength 3` becomes `^(ab){1,3}$` with the length
     keyword dropped; "ababab" (6 characters) matches. -/
 theorem C01_pattern_merge_wide_group_full_false :
-    updateQuantifier .asFound [(.at .bos : Item Nat), .rep 1 MAXREPEAT (.cat (.atom 1) (.atom 2)), .at .eos] none (some 3)
+    updateQuantifier {} [(.at .bos : Item Nat), .rep 1 MAXREPEAT (.cat (.atom 1) (.atom 2)), .at .eos] none (some 3)
       = .ok [.at .bos, .rep 1 3 (.cat (.atom 1) (.atom 2)), .at .eos] true ∧
     SearchAnchored satW [(.rep 1 3 (.cat (.atom 1) (.atom 2)) : Item Nat)] "ababab".toList ∧
     ¬ ("ababab".toList.length ≤ 3) := by
@@ -174,7 +174,7 @@ theorem C01_pattern_merge_wide_group_full_false :
 /-- **(F32)**: a bare atom between anchors gets a quantifier — `^a$` + `maxLength 3` becomes `^(a){1,3}$`; "aaa"
     matches the new pattern and does not match `^a$`. -/
 theorem C01_pattern_merge_bare_atom_full_false :
-    updateQuantifier .asFound [(.at .bos : Item Nat), .lit 1, .at .eos] none (some 3)
+    updateQuantifier {} [(.at .bos : Item Nat), .lit 1, .at .eos] none (some 3)
       = .ok [.at .bos, .rep 1 3 (.atom 1), .at .eos] true ∧
     SearchAnchored satW [(.rep 1 3 (.atom 1) : Item Nat)] "aaa".toList ∧
     ¬ SearchAnchored satW [(.lit 1 : Item Nat)] "aaa".toList := by
@@ -194,10 +194,10 @@ theorem C01_pattern_merge_bare_atom_full_false :
 /-- **(F36)**: `remaining_max = max_length or MAXREPEAT` — `^a[0-9]*$` + `maxLength 1` is re-rendered with the repeat
     still unbounded (and `maxLength` dropped): "a12" matches; the repaired zero test gives `{0}`. -/
 theorem C01_pattern_merge_zero_max_full_false :
-    updateQuantifier .asFound [(.at .bos : Item Nat), .lit 1, .rep 0 MAXREPEAT (.atom 3), .at .eos] none (some 1)
+    updateQuantifier {} [(.at .bos : Item Nat), .lit 1, .rep 0 MAXREPEAT (.atom 3), .at .eos] none (some 1)
       = .ok [.at .bos, .lit 1, .rep 0 MAXREPEAT (.atom 3), .at .eos] true ∧
     SearchAnchored satW [(.lit 1 : Item Nat), .rep 0 MAXREPEAT (.atom 3)] "a12".toList ∧ ¬ ("a12".toList.length ≤ 1) ∧
-    updateQuantifier .repaired [(.at .bos : Item Nat), .lit 1, .rep 0 MAXREPEAT (.atom 3), .at .eos] none (some 1)
+    updateQuantifier { zeroMax := .repaired } [(.at .bos : Item Nat), .lit 1, .rep 0 MAXREPEAT (.atom 3), .at .eos] none (some 1)
       = .ok [.at .bos, .lit 1, .rep 0 0 (.atom 3), .at .eos] true := by
   refine ⟨by decide, ?_, by decide, by decide⟩
   exact Matches.cat (u := ['a']) (.atom (by decide)) (.cat (.rep [['1'], ['2']] (fun w hw => by
@@ -206,7 +206,8 @@ theorem C01_pattern_merge_zero_max_full_false :
 
 /-- F35: a bare class with `minLength > maxLength` makes the rewriter build `{3,1}` — InternalError -/
 theorem C01_pattern_merge_internal_error :
-    updateQuantifier .asFound [(.cls 0 : Item Nat)] (some 3) (some 1) = .internalError := by
+    updateQuantifier {} [(.cls 0 : Item Nat)] (some 3) (some 1) = .internalError ∧
+    updateQuantifier { atom := .repaired } [(.cls 0 : Item Nat)] (some 3) (some 1) = .ok [.cls 0] false := by
   decide
 
 end Regex
